@@ -243,6 +243,19 @@ def reference_archives(max_size, limit=None):
         res = keep
     return res
 
+def replicated_archives(times=160):
+    """small LHA references repeated until they are larger than what the format bidders pull into the copy buffer
+    (about 48 KiB): members far behind the start are then parsed straight from the client's blocks, with block
+    borders at every offset of a member as the copies go by.  (LHA members simply follow one another; the zero
+    byte that ends the archive is moved behind the last copy.)"""
+    res = []
+    for n, b in reference_archives(8000):
+        if n.endswith(".lzh") and ("lha_lh" in n or "lha_header" in n) and not "withjunk" in n:
+            body = b.rstrip(b"\0")
+            if 100 < len(body) < 2000:
+                res.append(("rep:%s*%d" % (n, times), body * times + b"\0"))
+    return res
+
 STD_ENTRIES = [
     ["d", AE_IFDIR, 0o755, 1000, 1000, 86400 * 365, b"", b"", b"", 0, []],
     ["d/alpha.txt", AE_IFREG, 0o644, 1000, 1000, 86400 * 365 + 7, bytes((i * 31 + 7) & 0xff for i in range(1537)), b"", b"", 600, []],
